@@ -1065,7 +1065,7 @@ theorem WF.callFn {w : World} (h : WF w) (o f : Nat) (a : Args) : WF (w.callFn o
       · exact h.markReported _
       · exact h
     | forbidden e x hfind hx hhi heq => rw [heq]; exact h.setReported e x hx
-    | blocked e x r hfind hx hhi hord heq => rw [heq]; exact h
+    | blocked e x r hfind hx hhi hord hrk0 heq => rw [heq]; exact h
     | accepted e x n hfind hx hhi hord heq =>
       rw [heq]; simp only
       have hd := find_spec (w.expMatches a) w.expOrder (m.active f)
